@@ -26,6 +26,7 @@ import Scico.Proofs.ProxAxis
 import Scico.Proofs.ProxCG
 import Scico.Proofs.ProxCGGen
 import Scico.Proofs.ProxEdge
+import Scico.Proofs.ProxXR
 
 set_option linter.unusedSectionVars false
 
@@ -689,6 +690,41 @@ theorem C02_sqL2loss_diag_negscale_not_min :
   sqL2loss_diag_negscale_not_min
 
 end Edge
+
+/-! ## non-finite entries (`±inf`, `NaN`): what the entry-wise proxes return (model at the IEEE-extended scalar `XR ℚ`) -/
+
+section NonFinite
+open Scico.StepSize Scico.ProxXR
+
+/-- `L1Norm.prox`: an infinite entry stays infinite (the minimiser of `lam|x| + ½(x-v)²` escapes with `v`), a NaN entry stays NaN -/
+theorem C02_nonfinite_l1 (lam : Rat) :
+    l1Prox1 (XR.pinf : X) (XR.fin lam) = XR.pinf ∧ l1Prox1 (XR.ninf : X) (XR.fin lam) = XR.ninf ∧
+      l1Prox1 (XR.nan : X) (XR.fin lam) = XR.nan := ⟨l1_pinf lam, l1_ninf lam, l1_nan lam⟩
+
+/-- `NonNegativeIndicator.prox`: `+inf ↦ +inf`, `-inf ↦ 0`, `NaN ↦ NaN` (`jnp.maximum` propagates NaN); finite entries as over `ℚ` -/
+theorem C02_nonfinite_nonneg (a : Rat) :
+    nonnegProx1 (XR.pinf : X) = XR.pinf ∧ nonnegProx1 (XR.ninf : X) = (0 : X) ∧ nonnegProx1 (XR.nan : X) = XR.nan ∧
+      nonnegProx1 (XR.fin a : X) = XR.fin (nonnegProx1 a) := ⟨nonneg_pinf, nonneg_ninf, nonneg_nan, nonneg_fin a⟩
+
+/-- `HuberNorm` (separable): `±inf ↦ ±inf`, `NaN ↦ NaN`, for every finite `delta`, `lam` -/
+theorem C02_nonfinite_huber_sep (delta lam : Rat) :
+    huberSepProx1 (XR.fin delta) (XR.pinf : X) (XR.fin lam) = XR.pinf ∧
+      huberSepProx1 (XR.fin delta) (XR.ninf : X) (XR.fin lam) = XR.ninf ∧
+      huberSepProx1 (XR.fin delta) (XR.nan : X) (XR.fin lam) = XR.nan := ⟨huber_pinf delta lam, huber_ninf delta lam, huber_nan delta lam⟩
+
+/-- `SquaredL2Norm.prox`: `±inf ↦ ±inf` (`lam > 0`), `NaN ↦ NaN` -/
+theorem C02_nonfinite_sqL2 {lam : Rat} (hlam : 0 < lam) :
+    sqL2Prox1 (XR.pinf : X) (XR.fin lam) = XR.pinf ∧ sqL2Prox1 (XR.ninf : X) (XR.fin lam) = XR.ninf ∧
+      sqL2Prox1 (XR.nan : X) (XR.fin lam) = XR.nan := ⟨(sqL2_inf hlam).1, (sqL2_inf hlam).2, sqL2_nan lam⟩
+
+/-- `L0Norm.prox` (`where(|v| >= lam, v, 0)`, transcription `l0Prox1X`): a NaN entry fails the comparison and is replaced by `0`
+    — the NaN is silently dropped —, `±inf` is kept, and on finite entries it is the main model `l0Prox1` -/
+theorem C02_nonfinite_l0 (a lam : Rat) :
+    l0Prox1X (XR.nan : X) (XR.fin lam) = (0 : X) ∧ l0Prox1X (XR.pinf : X) (XR.fin lam) = XR.pinf ∧
+      l0Prox1X (XR.ninf : X) (XR.fin lam) = XR.ninf ∧
+      l0Prox1X (XR.fin a : X) (XR.fin lam) = l0Prox1 (XR.fin a : X) (XR.fin lam) := ⟨l0_nan lam, l0_pinf lam, l0_ninf lam, l0_fin a lam⟩
+
+end NonFinite
 
 /-! ## the flags: a prox is advertised only where the theorems above apply -/
 
